@@ -111,6 +111,14 @@ func init() {
 		HarnessSpec{Name: "VH_C13_signed_documents", Replay: "native", Unwind: 2000},
 		HarnessSpec{Name: "VH_C13_sign_is_pure", Replay: "native", Unwind: 2000})
 	props["C15"].Harnesses = append(props["C15"].Harnesses, HarnessSpec{Name: "VH_C13_sign_is_pure", Replay: "native", Unwind: 2000})
+	reg(&PropSpec{ID: "C20",
+		Harnesses: []HarnessSpec{
+			{Name: "VH_C20_predecode", Replay: "native", Unwind: 400},
+			{Name: "VH_C20_predecode_logout", Replay: "native", Unwind: 400},
+		},
+		Bounds:  map[string]string{"quick": "Response / LogoutResponse root with signature none/valid/invalid (incl. nested position), optional assertion; raw, DEFLATE, non-UTF-8 declared encoding, unpadded base64; configured decompression limit 0..128 MiB, inflated size 64 KiB..64 MiB", "thorough": "same"},
+		Outside: []string{"byte-level agreement of the two XML parsers on arbitrary layouts (duplicate / prefixed attributes reordered by canonicalisation, repeated Issuer elements)"},
+	})
 	reg(&PropSpec{ID: "C16",
 		Harnesses: []HarnessSpec{
 			{Name: "VH_C16_auth_post", Replay: "native", Unwind: 400},
